@@ -1,4 +1,4 @@
-CONSTANTS EP = {"e1", "e2"}  REQ = {"r1", "r2"}  Kinds = {"ok", "http", "reset_pre", "reset_after", "close_pre"}
+CONSTANTS EP = {"e1", "e2"}  REQ = {"r1", "r2"}  Kinds = {"ok", "http", "reset_pre", "reset_after", "close_pre", "cabort"}
           EBThreshold = 2  Engines = {"sherpa", "olla"}
 SPECIFICATION Spec
 CONSTRAINT MCConstraint
